@@ -472,6 +472,11 @@ func (w *Whisper) baseInterval(a *ArchiveInfo) (Timestamp, error) {
 	if _, err := t.TakeFrom(buf[:]); err != nil {
 		return 0, err
 	}
+	if t != 0 && int64(t)%int64(a.secondsPerPoint) != 0 {
+		// All slot positions are computed from the distance to the base
+		// interval, which must be a whole number of steps.
+		return 0, fmt.Errorf("corrupt archive: base interval %d is not a multiple of the step %s", t, a.secondsPerPoint)
+	}
 	return t, nil
 }
 
